@@ -74,6 +74,56 @@ entry(
     "DESIGN.md section 2, C11",
 )
 
+entry(
+    "C08",
+    "Hypothesis property-based testing against a pure-Python brute-force pair enumeration (same IEEE operation order as the kernel)",
+    "Generated point clouds (dyadic lattices with exact ties on bin edges / band limits, float clouds, duplicates, lat-lon incl. poles and "
+    "wrap-arounds), 1-4 fields with NaN, bin edges, both estimators, 0-3 directions (separated / overlapping), tolerances, bandwidths and masked "
+    "grids are fed to the compiled estimators directly and to vario_estimate / vario_estimate_axis; counts must equal the enumeration exactly, "
+    "values to 1e-11. Float ties within 1e-12 of a threshold are discarded and counted.",
+    "Trusted: libm sqrt/sin/cos/atan2/acos identical between CPython's math module and the kernel; the documented formulas as encoded in oracles/variogram.py.",
+    "DESIGN.md section 2, C08",
+)
+entry(
+    "C09",
+    "Hypothesis metamorphic testing: relations between two or three runs of vario_estimate / vario_estimate_axis on transformed inputs",
+    "Eleven generated relation families (permutation, rigid motion incl. reflections and sphere rotations, field shift/scale, four encodings of "
+    "missing data, structured vs point list, seeded sampling vs explicit subset, angles vs direction vectors, direction scaling, geo_scale unit "
+    "conversion and standard_bins, preprocessing inside vs beforehand, multi-field pooling, axis estimator symmetries); counts exact, values 1e-12.",
+    "Trusted: the relation itself is the oracle; numpy QR for orthogonal matrices; the preprocessing oracle written from the documented formula.",
+    "DESIGN.md section 2, C09",
+)
+entry(
+    "C13",
+    "Hypothesis property-based testing against independent spherical geometry (atan2 great circle on unit vectors) and metamorphic sphere rotations",
+    "Generated lat-lon(-time) point sets incl. poles, date line, wrap-arounds and antipodes, four kinds of geo_scale, all classes valid in 3(+1)-D: "
+    "coordinate conversion and round trips, model structure, the covariance actually used by Krige (distance matrices, one-datum extraction), SRF / "
+    "CondSRF vs plain 3-D model at oracle sphere points, estimator pair counts vs brute force on oracle great-circle distances, standard_bins rule, "
+    "Yadrenko fitting recovery for every unit, rotation invariance of kriging.",
+    "Trusted: oracles/geometry.py; radial covariance functions themselves (C03); libm accuracy of a few ulp.",
+    "DESIGN.md section 2, C13",
+)
+entry(
+    "C18",
+    "Hypothesis property-based testing against mpmath closed forms, Richardson differences, an independent profile likelihood and pipeline identities",
+    "Six normalizers x lmbda of both signs incl. the special values and their isclose windows x data over the valid range incl. ends, NaN, inf, "
+    "out-of-range, all container shapes: round trips both ways with the output range derived from the documented formula, strict monotonicity, "
+    "derivative, log-likelihoods, fit optimality (grid + golden section, scipy.stats cross-check), and trend + denormalize(mean + raw) for Field / SRF "
+    "/ Krige / CondSRF and the two tool functions (scalar/vector, structured/unstructured, stacked).",
+    "Trusted: mpmath at 30 digits; scipy.stats normmax as a second opinion; rounding-error budgets derived from the formulas (K = 8 ulp units).",
+    "DESIGN.md section 2, C18",
+)
+entry(
+    "C19",
+    "Hypothesis property-based testing against deterministic quantile push-forward oracles (mpmath) plus seeded z-tests on real SRF ensembles",
+    "All array transforms and the Field.transform / gstools.transform wrappers: push-forward of the normal law on quantile grids and extreme z, "
+    "closed-form moments of the targets (default bounds preserve mean/variance), Zinn-Harvey formula / evenness / monotonicity / preserved law, exact "
+    "forced moments, Box-Cox inversion and cut-off warning, discrete/binary class boundaries with inputs planted on thresholds (list, tuple, ndarray), "
+    "wrapper == own pre/post-processing around the array function for process / keep_mean / store variants; |z| <= 7 tests with confirmation runs on ensembles.",
+    "Trusted: mpmath normal cdf/quantile and target ppfs (self-tested at import); statistical sub-check gives evidence proportional to its sample size.",
+    "DESIGN.md section 2, C19",
+)
+
 
 def main():
     props = [json.loads(l) for l in open(os.path.join(VERIF, "properties.jsonl"))]
